@@ -128,6 +128,7 @@ class Engine:
         self.sim.tr.decl_hook = self.decl_hook
         self.viol = []
         self.harness_err = []
+        self.fail_idx_now = []
         self.probes = {}
         self.order = []  # ids of active probes in activation order
         self.obs = []
@@ -432,8 +433,14 @@ class Engine:
         return "ok"
 
     # -- expectations ---------------------------------------------------------------
-    def expected_for(self, rec, lo, hi):
+    def expected_for(self, rec, lo, hi, quiet=False):
         """[(event index, canon event)] for one probe over trace[lo:hi]."""
+        if quiet:
+            keep, self.sim.reach = self.sim.reach, (lambda *a, **k: None)
+            try:
+                return self.expected_for(rec, lo, hi)
+            finally:
+                self.sim.reach = keep
         exp = []
         for sel in rec.spec["sels"]:
             mode = sel.get("mode") or ("immediate" if sel.get("focus") else "total")
@@ -546,8 +553,9 @@ class Engine:
 
         return ok
 
-    def compare_stream(self, inv, rec, exp, got):
-        """exp: [(idx, ev)], got: [ev]; events of one idx compared as a multiset."""
+    def compare_stream(self, inv, rec, exp, got, optional=()):
+        """exp: [(idx, ev)], got: [ev]; events of one idx compared as a multiset.  The events of
+        an idx in ``optional`` may be missing, in any number."""
         if rec.spec.get("raw") or any(
             (s.get("mode") or ("immediate" if s.get("focus") else "total")) == "total"
             for s in rec.spec["sels"]
@@ -565,6 +573,33 @@ class Engine:
                 groups[-1][1].append(d)
             else:
                 groups.append((i, [d]))
+        if optional:
+            # events of an optional index may be missing in any number: try every split
+            keys = [_key(g) for g in got]
+
+            def fits(gi, pos):
+                if gi == len(groups):
+                    return pos == len(keys)
+                i, ds = groups[gi]
+                want = sorted(map(_key, ds))
+                if i not in optional:
+                    return sorted(keys[pos:pos + len(ds)]) == want and len(keys) - pos >= len(ds) and fits(gi + 1, pos + len(ds))
+                left = list(want)
+                n = 0
+                if fits(gi + 1, pos):
+                    return True
+                while pos + n < len(keys) and keys[pos + n] in left:
+                    left.remove(keys[pos + n])
+                    n += 1
+                    if fits(gi + 1, pos + n):
+                        return True
+                return False
+
+            if not fits(0, 0):
+                self.violate(inv, {"probe": rec.id, "sel": rec.strs, "expected": [d for _, d in exp], "got": got,
+                                   "optional (the failure struck there)": [d for i, d in exp if i in optional]})
+                return False
+            return True
         pos = 0
         for i, ds in groups:
             chunk = got[pos : pos + len(ds)]
@@ -606,6 +641,9 @@ class Engine:
         order = [vn for vn in ("ref", "trc", "sys") if vn in sim.v]
         n_acts_before = sim.tr.n
         sim.tr.hook = self.bind_hook if self.overriding_active() else None
+        self.fail_idx_now = []
+        sim.tr.after = self.after_event if (self.sc.get("exact_failures") and self.pending_failures()) else None
+        sim.tr.decl_attempt = self.decl_attempt if sim.tr.after is not None else None
         for k, vn in enumerate(order):
             # distinct value ranges are not needed: the twins never see each other
             res[vn] = sim.run(vn, thunk_of(op), tape, faults, box=box)
@@ -637,6 +675,60 @@ class Engine:
             },
         }
         return ob, res
+
+    # -- injected subscriber failures, exactly (scenario key "exact_failures") -----------------
+    EXACT_KINDS = ("whole", "accum", "map")
+
+    def pending_failures(self):
+        return [(rec, st) for rec in self.probes.values() if rec.active
+                for st in rec.stages
+                if st.get("raises") is not None and st["kind"] in self.EXACT_KINDS
+                and not st.get("post") and not st.get("model_fired")]
+
+    def after_event(self, ev):
+        """Called by the tracer after each event of the traced twin: if the k-th delivery to a
+        failing subscriber falls on this event, the failure surfaces here -- in the model exactly
+        as in the probed program (the exception comes out of the event's delivery)."""
+        i = ev["i"]
+        for rec, st in self.pending_failures():
+            exp = self.expected_for(rec, i, i + 1, quiet=True)
+            if st["kind"] != "whole":
+                exp = [e for e in exp if st["cap"] in e[1]]
+            if not exp:
+                continue
+            before = st.get("model_seen", 0)
+            st["model_seen"] = before + len(exp)
+            if before < st["raises"] <= before + len(exp):
+                st["model_fired"] = True
+                self.sim.reach("subscriber_failure_modelled")
+                if rec.spec.get("kind") == "overridable" and ev["k"] == "bind" and self.sim.tr.events[-1] is ev:
+                    # overriders are consulted before the binding is reported to anybody else: a
+                    # failure in an overrider's pipeline means the binding was never reported
+                    self.sim.tr.events.pop()
+                    self.sim.tr.raw.pop()
+                    self.fail_idx_now.append(-1)
+                else:
+                    self.fail_idx_now.append(i)
+                raise RuntimeError("subscriber failure injected")
+
+    def decl_attempt(self, fn, var, act):
+        """A declaration nobody supplies: an overridable probe aimed at it has still handed the
+        (empty) binding to its pipeline once -- a failing subscriber of it may strike there."""
+        for rec, st in self.pending_failures():
+            if rec.spec.get("kind") != "overridable":
+                continue
+            sel = rec.spec["sels"][0]
+            if sel["levels"][-1]["fn"] != fn or sel["focus"]["var"] != var or len(sel["levels"]) != 1:
+                continue
+            if st["kind"] != "whole" and st["cap"] != (sel["focus"].get("as") or var):
+                continue
+            before = st.get("model_seen", 0)
+            st["model_seen"] = before + 1
+            if st["raises"] == before + 1:
+                st["model_fired"] = True
+                self.fail_idx_now.append(-1)
+                self.sim.reach("subscriber_failure_modelled")
+                raise RuntimeError("subscriber failure injected")
 
     def decl_hook(self, fn, var, act, tracer):
         """C16: a declared-only variable is supplied by the most recently
@@ -775,7 +867,11 @@ class Engine:
 
     def check_model(self, ob):
         r = ob["res"]
-        if "ref" in r and "trc" in r and not self.overriding_active():
+        if self.fail_idx_now:
+            # from here on the untouched twin has a different past (the failure happened to the
+            # other two only): closure cells, globals, objects may differ for good
+            self.ref_diverged = True
+        if "ref" in r and "trc" in r and not self.overriding_active() and not getattr(self, "ref_diverged", False):
             if r["ref"]["out"] != r["trc"]["out"] or r["ref"]["log"] != r["trc"]["log"]:
                 self.herr(
                     "model-vs-reference",
@@ -964,11 +1060,18 @@ class Engine:
             for st in rec.stages:
                 if st.get("raised"):
                     st["raised_seen"] = True
+        # with exact failures the model has been through the same failure: nothing is relaxed, but
+        # the untouched twin (which knows no probes) is no reference for this operation
+        exact = bool(self.sc.get("exact_failures"))
+        optional = set(self.fail_idx_now)
+        ref_skip = raised_now or bool(optional) or getattr(self, "ref_diverged", False)
+        if exact:
+            raised_now = False
         # C16.no_absent is checked in every run of every lens
         if any(vn == "sys" for vn, _ in sim.absent_seen):
             self.violate("C16.no_absent", {"op": op, "sys": r.get("sys")})
             sim.absent_seen.clear()
-        if ok_model and "ref" in r and "sys" in r and not self.overriding_active() and not raised_now:
+        if ok_model and "ref" in r and "sys" in r and not self.overriding_active() and not ref_skip:
             if r["sys"]["out"] != r["ref"]["out"]:
                 self.violate(
                     "C01.same_outcome",
@@ -1027,6 +1130,12 @@ class Engine:
                         if not uidx:
                             uidx, _ = self.inflight_unspecified(rec, ob["lo"], ob["hi"])
                         exp = [(i, d) for i, d in exp if i not in uidx]
+                    if optional:
+                        # the events of the very binding / exit at which the failure struck: which
+                        # probes had been served before it struck is not specified
+                        rec.exp_all.extend((self.opi, d) for d in got)
+                        self.compare_stream(self.stream_inv(rec), rec, exp, got, optional=optional)
+                        continue
                     rec.exp_all.extend((self.opi, d) for _, d in exp)
                     self.compare_stream(self.stream_inv(rec), rec, exp, got)
                 elif got and not rec.active:
